@@ -4,3 +4,19 @@ def fill(chk):
         "Menus are finite; out-of-domain menus hold right-typed, wrong-valued entries only; success is demanded only under the conservative predicate must_connect() in mc/props/c19.py (IANA-name reading of both settings).",
         "exhaustive product enumeration of the settings lattice (bounded number of changed dimensions) + live loopback handshakes against an independent negotiation predicate",
         "DESIGN.md 3/C19")
+
+    chk("C01", "model_checking",
+        "For every negotiable (version, suite, EtM) triple (198 pairs + EtM-off variants) a live loopback connection carries every payload length of a boundary set in both directions; from the post-handshake snapshot a breadth-first search explores every sequence of write/read operations up to depth 3 (quick) / 4 (thorough) on deep copies of the connected pair, with a FIFO reference model checked on every transition; every record on the in-memory wire is opened by an independent record layer keyed from the session secrets and the IANA name, and its plaintext length is compared with the limit in force (peer's record_size_limit, 2^14, recordSize, TLS 1.3 padding). Exhaustive within the stated alphabets and depth.",
+        "Payload values come from one counter stream per direction; state abstraction (bytes in flight, read-buffer lengths) drops absolute sequence numbers; refcrypto/refrecord are trusted after their start-up self-test against published vectors.",
+        "explicit-state BFS over operation sequences on the real connection pair + FIFO reference model + independent record-layer witness",
+        "DESIGN.md 3/C01")
+    chk("C12", "exploration",
+        "ct_check_cbc_mac_and_pad is evaluated on every (version, MAC, block size, body length, claimed padding length 0..255) of a boundary length set (quick) / all lengths 0..329 (thorough) with bodies built well-formed wherever the protocol allows, and on every single-byte corruption of selected well-formed bodies, against an 8-line direct specification; the same shapes are sealed by an independent record layer and pushed through RecordLayer.recvRecord() for every CBC suite x version.",
+        "MAC keys/sequence numbers are fixed per seed; SSLv3 padding of exactly one block is left open; reference MACs come from hashlib/hmac.",
+        "exhaustive input-shape enumeration against a direct executable specification",
+        "DESIGN.md 3/C12")
+    chk("C20", "exploration",
+        "Every TLS suite identifier the library names (114) x every protocol version is attempted as a live handshake with settings derived from the IANA name; completed handshakes are checked against the name: ServerKeyExchange kind and signedness, certificate key type, ClientKeyExchange shape, accessor names, record expansion, and every protected record must open under a record layer configured from the name alone (cipher, key length, nonce construction, MAC/tag length, PRF hash). A MITM substitutes every suite id into ClientHello and ServerHello for every version to show it is never selected/accepted where the registry does not define it.",
+        "ianasuite.py parses names only; draft-00 ChaCha suites have no registry entry; ECC under SSLv3 left open.",
+        "exhaustive product enumeration (suite x version x role) with wire tap and independent record-layer witness",
+        "DESIGN.md 3/C20")
